@@ -534,7 +534,7 @@ class Interp(Engine):
         t = s.target
         if isinstance(t, ast.Name):
             cur = fr.lookup(t.id)
-            if isinstance(cur, (SArr, NArr)):
+            if isinstance(cur, (SArr, NArr)) or type(cur).__name__ == "S2Arr":
                 self.models.inplace_binop(self, s.op, cur, self.ev(s.value, fr))
                 return
             fr.store(t.id, self.binop(s.op, cur, self.ev(s.value, fr)))
@@ -698,20 +698,23 @@ class Interp(Engine):
             raise
         self.call(self.getattr_(mgr, "__exit__"), [None, None, None], {})
 
+    def match_pattern(self, p, subj, fr):
+        if isinstance(p, ast.MatchValue):
+            return self.branch(self.compare(ast.Eq(), subj, self.ev(p.value, fr)))
+        if isinstance(p, ast.MatchSingleton):
+            return subj is p.value
+        if isinstance(p, ast.MatchOr):
+            return any(self.match_pattern(q, subj, fr) for q in p.patterns)
+        if isinstance(p, ast.MatchAs) and p.pattern is None:
+            if p.name:
+                fr.store(p.name, subj)
+            return True
+        raise Unsupported("match pattern")
+
     def ex_Match(self, s, fr):
         subj = self.ev(s.subject, fr)
         for case in s.cases:
-            p = case.pattern
-            if isinstance(p, ast.MatchValue):
-                ok = self.branch(self.compare(ast.Eq(), subj, self.ev(p.value, fr)))
-            elif isinstance(p, ast.MatchSingleton):
-                ok = subj is p.value
-            elif isinstance(p, ast.MatchAs) and p.pattern is None:
-                ok = True
-                if p.name:
-                    fr.store(p.name, subj)
-            else:
-                raise Unsupported("match pattern")
+            ok = self.match_pattern(case.pattern, subj, fr)
             if ok and case.guard is not None:
                 ok = self.branch(self.truth(self.ev(case.guard, fr)))
             if ok:
